@@ -237,7 +237,8 @@ def run_find(case):
                 out.append([p, stars, memo])
         return out
 
-    pairs = [(p, c, k) for p, c in nodes for k in names]
+    dotted = sorted({(p[-2], p[-1]) for p, _ in nodes if len(p) >= 2})
+    pairs = [(p, c, (k,)) for p, c in nodes for k in names] + [(p, c, d) for p, c in nodes for d in dotted]
     if len(pairs) > case.get("max", 40):
         pairs = rng.sample(pairs, case.get("max", 40))
     queries = []
@@ -247,11 +248,11 @@ def run_find(case):
             if st is None:
                 return {"unsupported": True}
             try:
-                r = c._find_class(ast.ComponentRef(name=k))
+                r = c._find_class(ast.ComponentRef.from_tuple(tuple(k)))
                 res = list(r.full_reference().to_tuple())
             except (ast.ClassNotFoundError, KeyError):
                 res = None
-            queries.append({"xm": st, "p": p, "k": k, "res": res})
+            queries.append({"xm": st, "p": p, "k": k[0], "ks": list(k[1:]), "res": res})
     return {"paths": [p for p, _ in nodes], "queries": queries, "final": imports_state()}
 
 
